@@ -72,6 +72,9 @@ type vLoop struct {
 	storeFails int
 	kinds      int
 	twoRemotes bool
+	opp        int // commit opportunities seen so far
+	shardFirst int // > 0: number of shards over the first commit's opportunity
+	firstAt    int
 }
 
 func vRemoteSnapshot(ts uint64, val []byte) []byte {
@@ -150,6 +153,7 @@ func (l *vLoop) appCommit(point string) {
 		zz.Assume(w.ts > l.localTS)
 		l.localTS = w.ts
 	}
+	noop := false
 	err := l.env.Update(func(txn *lmdb.Txn) error {
 		dbi, err := txn.OpenDBI("d", 0)
 		if err != nil {
@@ -165,6 +169,9 @@ func (l *vLoop) appCommit(point string) {
 		if w.del {
 			err := txn.Del(dbi, w.key, nil)
 			if lmdb.IsNotFound(err) {
+				// deleting an absent key changes nothing (LMDB does not even record the empty
+				// transaction): not an application change, the previous write stays the last one
+				noop = true
 				return nil
 			}
 			return err
@@ -178,6 +185,9 @@ func (l *vLoop) appCommit(point string) {
 	})
 	if err != nil {
 		zz.Assert(false, "harness/app-commit")
+		return
+	}
+	if noop {
 		return
 	}
 	// keep the last write per key
@@ -212,10 +222,24 @@ func (l *vLoop) yield(point string) {
 		if l.iter >= l.maxIter {
 			l.ctx.cancel()
 		}
+	case "load-before-txn", "send-before-txn":
+		// every transaction of the syncer reads a strictly later clock than the previous one
+		// (nanosecond clock; two captures stamped with the very same instant would be ordered
+		// by the tie-break instead of by time - stated as an assumption)
+		zz.ClockStep()
 	}
 	// the application may commit here
 	if l.commits < l.maxCommits && l.iter <= l.commitIter && point != "loop-top" {
-		if zz.Choice("app@"+point, 2) == 1 {
+		l.opp++
+		do := false
+		if l.commits == 0 && l.shardFirst > 0 {
+			// deep jobs: the opportunity at which the first commit happens is the sharding key
+			// (a value beyond the last opportunity of the path = no commit)
+			do = l.opp == l.firstAt
+		} else {
+			do = zz.Choice("app@"+point, 2) == 1
+		}
+		if do {
 			l.commits++
 			l.appCommit(point)
 		}
@@ -233,6 +257,9 @@ func vRunLoopOpt(native, receiveOnly bool, maxIter, commitIter, maxCommits, kind
 
 func vRunLoopOpt2(native, receiveOnly, twoRemotes bool, maxIter, commitIter, maxCommits, kinds int, newRemote []int, storeFails int) *vLoop {
 	l := &vLoop{twoRemotes: twoRemotes, native: native, maxIter: maxIter, commitIter: commitIter, maxCommits: maxCommits, newRemote: newRemote, kinds: kinds, storeFails: storeFails}
+	if l.shardFirst = zz.Param("loop.shard-first", 0); l.shardFirst > 0 && maxCommits > 0 {
+		l.firstAt = 1 + zz.Shard(l.shardFirst)
+	}
 	l.env = zz.NewEnv()
 	l.st = &vStore{}
 	l.ctx = vNewLoopCtx()
@@ -383,7 +410,8 @@ func VerifLoopNative() { verifLoop(true) }
 func VerifLoopShadow() { verifLoop(false) }
 
 func verifLoop(native bool) {
-	l := vRunLoop(native, 5, 3, 1, 2, []int{2, 3}, 0)
+	// bounds a tier may raise: iterations, last iteration with a commit, commits, kinds of change
+	l := vRunLoop(native, zz.Param("loop.iters", 5), zz.Param("loop.commit-iter", 3), zz.Param("loop.commits", 1), zz.Param("loop.kinds", 2), []int{2, 3}, 0)
 	if l == nil {
 		return
 	}
@@ -394,7 +422,7 @@ func verifLoop(native bool) {
 		zz.Assert(l.st.count("store", true) == 1, "C10/loop/no-echo-upload")
 		zz.Reach("C10/loop/quiescent")
 	}
-	if l.commits == 1 {
+	if l.commits >= 1 {
 		zz.Reach("C03/loop/with-commit")
 	}
 	zz.Reach("C03/loop/done")
